@@ -501,8 +501,28 @@ def r3_generators(ctx, repo):
             ctx.inconclusive("R3", C, where(mod, anchor), "several draws in one value", key="unit-affine")
         else:
             e2 = U1().visit(copy.deepcopy(expr))
+            # the pair of bounds in use: one expression B read as B[0] and B[1] (the parameter itself, or the parameter with
+            # its default filled in)
+            bases = {text(n_.value) for n_ in ast.walk(e2) if isinstance(n_, ast.Subscript) and is_const(n_.slice) and const_value(n_.slice) in (0, 1)}
+            if len(bases) == 1 and next(iter(bases)) != "bounds":
+                btxt = next(iter(bases))
+
+                class B1(ast.NodeTransformer):
+                    def visit_Subscript(self, n):
+                        if text(n.value) == btxt and is_const(n.slice) and const_value(n.slice) in (0, 1):
+                            return ast.Subscript(value=ast.Name(id="bounds", ctx=ast.Load()), slice=n.slice, ctx=ast.Load())
+                        return self.generic_visit(n)
+                e2 = ast.fix_missing_locations(B1().visit(e2))
             want = poly.parse("bounds[0] + u * (bounds[1] - bounds[0])")
             eq = poly.equal(e2, want)
+            if eq is False:
+                try:
+                    r_ = poly.norm(e2)
+                    atoms_ = {k_ for m_ in list(r_.num) + list(r_.den) for k_, _e in m_}
+                    if not atoms_ <= {"u", "bounds[(1*)]", "bounds[()]", "bounds[0]", "bounds[1]"} and not all(a_ == "u" or a_.startswith("bounds[") for a_ in atoms_):
+                        eq = None        # terms the rule does not know: no verdict
+                except poly.NotPolynomial:
+                    eq = None
             if eq:
                 ctx.holds("R3", C, where(mod, anchor), "number = lo + u*(hi-lo), u in [0,1): unit-affine in the bounds", key="unit-affine")
             elif eq is False:
@@ -548,8 +568,10 @@ def r3_generators(ctx, repo):
         rv0 = rets[-1].value
         while isinstance(rv0, ast.Call) and isinstance(rv0.func, ast.Attribute) and rv0.func.attr == "copy":
             rv0 = rv0.func.value
-        if isinstance(rv0, ast.Call) and access_path(rv0.func) == "list" and rv0.args:
+        if isinstance(rv0, ast.Call) and access_path(rv0.func) in ("list", "copy.copy", "tuple") and rv0.args:
             rv0 = rv0.args[0]
+        if isinstance(rv0, ast.Subscript) and isinstance(rv0.slice, ast.Slice) and rv0.slice.lower is None and rv0.slice.upper is None and rv0.slice.step is None:
+            rv0 = rv0.value          # x[:]: the same elements
         vec = access_path(rv0)
         for p in Enumerator(loop_counts=(0, 1)).function_paths(body_fn(lp.body, fn.args, lp.lineno)):
             n += 1
